@@ -59,6 +59,7 @@ static struct answer vans[MAXANS]; static int nvans, vans_pos;
 static int rd_ok, wr_ok; static long lk_ans, ul_ans;
 /* write answers per attempt within one service call: a string of 0/1, the last digit repeats */
 static char wr_pat[32] = "1"; static int wr_k;
+static int ref_val = 0;        /* what a refusing io->write returns: anything but 1 is a refusal (op "refval") */
 static void set_wr(const char *t) { snprintf(wr_pat, sizeof(wr_pat), "%s", (t[0] == '0' || t[0] == '1') ? t : "1"); wr_ok = wr_pat[0] == '1'; }
 static int quiet;   /* suppress events (query sampling) */
 static int uns_v_pending; /* the unsolicited machine will make the first variable read callback of this call */
@@ -265,7 +266,7 @@ static int io_write(char ch)
         ok = wr_pat[wr_k < n ? wr_k : n - 1] == '1';
         wr_k++;
         ev("W:%02x:%d:%s", (unsigned)(uint8_t)ch, ok, at);
-        return ok ? 1 : 0;
+        return ok ? 1 : ref_val;
 }
 
 static int io_read(char *ch)
@@ -551,6 +552,7 @@ int main(void)
 
                 if (strcmp(tok[0], "scn") == 0) {
                         scn_reset();
+                        ref_val = 0;
                         opno = 0;
                         printf("scn %s\n", nt > 1 ? tok[1] : "?");
                         fflush(stdout);
@@ -592,6 +594,7 @@ int main(void)
 
                 if (strcmp(tok[0], "hq") == 0) { queue_answers(tok[1], 0); continue; }
                 if (strcmp(tok[0], "vq") == 0) { queue_answers(tok[1], 1); continue; }
+                if (strcmp(tok[0], "refval") == 0) { ref_val = atoi(tok[1]); if (ref_val == 1) ref_val = 0; continue; }
 
                 /* ---- operations ---- */
                 opno++;
